@@ -63,17 +63,25 @@ Definition row_key_exists (rs : list row) (b p : N) : bool := existsb (fun r => 
 
 Definition set_tree (d : bdb) (t : tdb) : bdb := mkBdb (d_blocks d) (d_bridges d) (d_claims d) (d_tm d) (d_legacy d) t.
 
+(* ---- generic part (node hash, zero table and leaf hash as parameters; see TreeStore.Gen) ---- *)
+Module Gen.
+Section S.
+Variable HT : nat.
+Variable node : N -> N -> N.
+Variable zhf : nat -> N.
+Variable leafh : bridge_ev -> N.
+
 (* one event of ProcessBlock *)
 Definition process_event (f : fault) (blk : N) (x : txc) (e : event) : perr + txc :=
   let d := x_db x in
   match e with
   | EBridge b =>
     (* exitTree.AddLeaf: root insert, then the rht inserts (modelled as ONE counted write to TRht), lastIndex++ *)
-    match add_leaf_exec (d_tree d) (x_mem x) blk (b_pos b) (b_dc b) (bridge_leaf b) with
+    match TreeStore.Gen.add_leaf_exec HT node zhf (d_tree d) (x_mem x) blk (b_pos b) (b_dc b) (leafh b) with
     | (mem', inl e) => inl (PTree e)
     | (mem', inr t') =>
-      if hits f (x_cnt x) TRoot then inl PInconsistent else
-      if hits f (bump (x_cnt x) TRoot) TRht then inl PInconsistent else
+      if hits f (x_cnt x) TRoot then inl PFault else
+      if hits f (bump (x_cnt x) TRoot) TRht then inl PFault else
       let c1 := bump (bump (x_cnt x) TRoot) TRht in
       if hits f c1 TBridge then inl PFault else
       if existsb (fun r => (fst r =? blk) && (b_pos (snd r) =? b_pos b)) (d_bridges d) then inl PConstraint else
@@ -108,7 +116,7 @@ Definition process_event (f : fault) (blk : N) (x : txc) (e : event) : perr + tx
 Definition after_failed_event (f : fault) (blk : N) (x : txc) (e : event) : tmem * nat :=
   match e with
   | EBridge b =>
-    match add_leaf_exec (d_tree (x_db x)) (x_mem x) blk (b_pos b) (b_dc b) (bridge_leaf b) with
+    match TreeStore.Gen.add_leaf_exec HT node zhf (d_tree (x_db x)) (x_mem x) blk (b_pos b) (b_dc b) (leafh b) with
     | (mem', inl _) => (mem', x_added x)
     | (mem', inr _) =>
       if hits f (x_cnt x) TRoot || hits f (bump (x_cnt x) TRoot) TRht then (mem', x_added x)
@@ -140,13 +148,22 @@ Definition process_block (f : fault) (st : bstate) (k : block) : option perr * b
   | inl (err, x, oe) =>
     let '(mem1, added) := match oe with Some e => after_failed_event f (k_num k) x e | None => (x_mem x, x_added x) end in
     let halted := match err with PTree EInvalidIndex => true | _ => false end in
-    (* any error of AddLeaf is reported as ErrInconsistentState; only ErrInvalidIndex halts *)
-    let err' := match err with PTree _ => PInconsistent | e => e end in
+    (* only ErrInvalidIndex halts and is reported as ErrInconsistentState; any other error of AddLeaf (a storage
+       failure) is returned as it is, so that the driver retries the block *)
+    let err' := match err with PTree EInvalidIndex => PInconsistent | PTree EConstraint => PConstraint | e => e end in
     (Some err', mkBst d (rollback_mem mem1 added) halted)
   | inr x =>
     if hits f (x_cnt x) TCommit then (Some PFault, mkBst d (rollback_mem (x_mem x) (x_added x)) false)
     else (None, mkBst (x_db x) (x_mem x) false)
   end.
+
+End S.
+End Gen.
+
+(* executable instances *)
+Definition process_event := Gen.process_event HEIGHT nodeN zh bridge_leaf.
+Definition process_events := Gen.process_events HEIGHT nodeN zh bridge_leaf.
+Definition process_block := Gen.process_block HEIGHT nodeN zh bridge_leaf.
 
 (* processor.Reorg: DELETE FROM block WHERE num >= b (children cascade), exitTree.Reorg (root rows deleted, in-memory cache
    invalidated), un-halt iff rows were deleted *)
